@@ -695,8 +695,22 @@ func (e *Exec) donate() []decision {
 
 // ---------------------------------------------------------------- calls
 
+// realFor: the harness asked for the real body of this summarised function.
+func (e *Exec) realFor(fn *ssa.Function) bool {
+	if len(e.h.Real) == 0 || fn.Blocks == nil {
+		return false
+	}
+	name := fn.String()
+	for _, r := range e.h.Real {
+		if strings.Contains(name, r) {
+			return true
+		}
+	}
+	return false
+}
+
 func (e *Exec) callFn(fn *ssa.Function, args []Value) Value {
-	if h := e.eng.intrinsic(fn); h != nil {
+	if h := e.eng.intrinsic(fn); h != nil && !e.realFor(fn) {
 		return h(e, fn, args)
 	}
 	if r := e.eng.redirect(fn, e.h); r != nil {
